@@ -174,6 +174,57 @@ def run_property(prop, tier, facts, info):
     return mod, ctxs
 
 
+def thorough_extra(prop, repo, base_ctxs):
+    """thorough tier = quick rules + thorough-only rules + (a) engine self-test on the positive-example crate,
+    (b) every confirmed seeded change that targets this property is applied to a scratch copy of the CURRENT
+    /repo tree and the property's rules must raise a violation the unchanged tree does not have."""
+    import glob
+    import shutil
+    import tempfile
+    from . import selftest
+    from .registry import RULES
+    out = {}
+    st = selftest.run()
+    out["selftest"] = st
+    if not st.get("ok"):
+        print("WARNING: engine self-test failed: %s" % {k: v for k, v in st.items() if v is False})
+    base_keys = {v.key for cx in base_ctxs for v in cx.violations}
+    results = []
+    for meta in sorted(glob.glob(os.path.join(VERIF, "seeded", "*", "meta.json"))):
+        m = json.load(open(meta))
+        targets = [m.get("breaks")] + list(m.get("also_checked_by", []))
+        if prop not in targets:
+            continue
+        d = os.path.dirname(meta)
+        tmp = tempfile.mkdtemp(prefix="skv-mut-")
+        try:
+            for name in ("src", "Cargo.toml", "Cargo.lock", "benches"):
+                sp = os.path.join(repo, name)
+                if os.path.isdir(sp):
+                    shutil.copytree(sp, os.path.join(tmp, name))
+                elif os.path.exists(sp):
+                    shutil.copy(sp, os.path.join(tmp, name))
+            r = subprocess.run(["patch", "-p1", "-s", "-f", "-i", os.path.join(d, "patch.diff")], cwd=tmp, stdout=subprocess.PIPE, stderr=subprocess.STDOUT, text=True)
+            if r.returncode != 0:
+                results.append({"seed": os.path.basename(d), "status": "patch does not apply to the current tree"})
+                continue
+            try:
+                mf, _ = get_facts(tmp)
+            except SystemExit as e:
+                results.append({"seed": os.path.basename(d), "status": "extraction failed: %s" % e})
+                continue
+            _, mctx = run_property(prop, "quick", mf, {})
+            new = sorted({v.key for cx in mctx for v in cx.violations} - base_keys)
+            results.append({"seed": os.path.basename(d), "status": "caught" if new else "MISSED", "new_violations": new[:6]})
+            if not new:
+                print("WARNING: seeded change %s is not detected by %s any more" % (os.path.basename(d), prop))
+        finally:
+            shutil.rmtree(tmp, ignore_errors=True)
+    out["seeded_mutants"] = results
+    out["seeded_mutants_caught"] = sum(1 for r in results if r["status"] == "caught")
+    return out
+
+
 def main(argv=None):
     ap = argparse.ArgumentParser()
     ap.add_argument("prop")
@@ -189,8 +240,10 @@ def main(argv=None):
     facts, info = get_facts(a.repo)
     mod, ctxs = run_property(prop, tier, facts, info)
     extra = {}
-    if tier == "thorough" and hasattr(mod, "thorough_extra"):
-        extra = mod.thorough_extra(facts, a.repo) or {}
+    if tier == "thorough":
+        extra = thorough_extra(prop, a.repo, ctxs)
+        if hasattr(mod, "thorough_extra"):
+            extra.update(mod.thorough_extra(facts, a.repo) or {})
     known = [k for k in load_known() if k["property"] == prop]
     known_keys = {k["key"]: k for k in known if k.get("status") == "known"}
     viols = [v for cx in ctxs for v in cx.violations]
